@@ -39,8 +39,19 @@ import (
 	"github.com/kstenerud/go-concise-encoding/types"
 )
 
+// Go counts years astronomically, so a time.Time can be in year 0 (1 BC). The
+// format has no year 0 and no decoder accepts one, so such a value cannot be
+// marshaled.
+func goTimeToCompactTime(t time.Time) compact_time.Time {
+	ct := compact_time.AsCompactTime(t)
+	if ct.Year == 0 && !ct.IsZeroValue() {
+		panic(fmt.Errorf("cannot marshal %v: the format has no year 0", t))
+	}
+	return ct
+}
+
 func iterateTime(context *Context, v reflect.Value) {
-	context.EventReceiver.OnTime(compact_time.AsCompactTime(v.Interface().(time.Time)))
+	context.EventReceiver.OnTime(goTimeToCompactTime(v.Interface().(time.Time)))
 }
 
 func iteratePTime(context *Context, v reflect.Value) {
@@ -48,7 +59,7 @@ func iteratePTime(context *Context, v reflect.Value) {
 		context.NotifyNil()
 	} else {
 		t := v.Interface().(*time.Time)
-		context.EventReceiver.OnTime(compact_time.AsCompactTime(*t))
+		context.EventReceiver.OnTime(goTimeToCompactTime(*t))
 	}
 }
 
